@@ -89,12 +89,23 @@ func TestC20(t *testing.T) {
 	defer rec.Close()
 	ctxs := contexts(t)
 	g := genCtx(t)
+	gf2, err := refdict.Parse("gen2", lib.GenXML2)
+	if err != nil {
+		t.Fatal(err)
+	}
+	g2, err := lib.Load("gen2", gf2) // the same names mean other codes than in g
+	if err != nil {
+		t.Fatal(err)
+	}
 	rec.Suite("search", rec.N(40000, 2000000), func(c *ev.Case) {
 		r := c.R
 		var ctx *lib.Ctx
 		var m *gen.Msg
 		if c.I%2 == 0 {
 			ctx = g
+			if (c.I/32)%2 == 1 { // alternates within every batch
+				ctx = g2
+			}
 			m = &gen.Msg{H: refcodec.Header{Version: 1, Flags: 0x80, Code: 8388000, App: 0, HopByHop: 1, EndToEnd: 1}, Nodes: denseTree(c, 0)}
 		} else {
 			ctx = ctxs[(c.I/2)%len(ctxs)]
